@@ -74,7 +74,7 @@ PROPS["C09"] = dict(
     technique="exhaustive enumeration of key sizes/curves x algorithms x {generate, verify} x providers on the real code",
     level_text=("every oct length 1-160 x HS256/384/512, every pool RSA size (512...4096 incl. 2047/2048/2056, e=3, 33-bit e, RSA-PSS) "
                 "x RS*/PS*, every curve x every ES*, Ed25519/Ed448/X25519 x EdDSA, plus every cross-family pair, for generate and "
-                "for verify of a token made by the reference with the weak key itself; both providers; oct keys of every length are also presented with k padded, over-padded and followed by = plus further text (the floor is judged on the bytes the key really has); seven EC keys on curves outside JOSE (brainpool 256/320/384/512, secp224r1, prime192v1) against every ES algorithm; every RSA pool key also with 1, 2 and 129 zero octets in front of n"),
+                "for verify of a token made by the reference with the weak key itself; both providers; oct keys of every length are also presented with k padded, over-padded and followed by = plus further text (the floor is judged on the bytes the key really has); seven EC keys on curves outside JOSE (brainpool 256/320/384/512, secp224r1, prime192v1) against every ES algorithm; every RSA pool key also with 1, 2 and 129 zero octets in front of n; every key also with its algorithm named in the JWK (setkey(JWT_ALG_NONE, key))"),
     level_note="the verify token is signed by ref_crypto with the same weak key, so a loosened floor shows up as an acceptance",
     rule=("one cell per (key, algorithm); each cell runs generate and verify; non-trivial = a key at/above the floor that generated "
           "a token which the reference verifies, or whose reference-signed token the library accepts; distinct by cell descriptor"),
@@ -93,7 +93,7 @@ PROPS["C04"] = dict(
                 "invalid calls; leeways -100, -1, 0, 5, 2^40; three expected values per string claim incl. a non-ASCII one) are reached on the real checker by replaying the history that reaches them; every transition's "
                 "return code and observers are compared with the model, and in every state a battery of tokens around each "
                 "boundary, each JSON type and each string relation is verified at three clock values, unsigned and HS256-signed, "
-                "and compared with ref_claims in both directions"),
+                "and compared with ref_claims in both directions; a refused re-pin (claim_set(ISS, non-UTF-8)) is an operation too: afterwards the earlier expectation or a fail-closed check is allowed, never none"),
     level_note="model = 60 lines of C in harness/claims.c (model_step, ref_claims); every explored history is an implementation trace",
     rule=("states = reachable model states; transitions = state x operation; per state a battery of probe tokens (quick: single-claim "
           "variations from an all-pass and an all-fail baseline; thorough: plus all pairs of claim shapes) x 3 clocks x "
@@ -154,7 +154,7 @@ PROPS["C13"] = dict(
                 "clock advance) for four checker configurations, and of depth 5 / 6 over 13 builder operations (setkey good / "
                 "fails-at-signing / none / public, callbacks failing / mutating / none, generate, error_clear, clock, claim set/del); "
                 "after every verify/generate the result is compared with a freshly created, identically configured object at the "
-                "same clock.  States are deliberately not merged: merging by observable state would hide hidden state; one checker configuration carries a callback that edits the token it is handed (headers and claims)"),
+                "same clock.  States are deliberately not merged: merging by observable state would hide hidden state; one checker configuration carries a callback that edits the token it is handed (headers and claims); callbacks that overwrite config->ctx (checker and builder)"),
     level_note="the model is only the net configuration (last successful setkey/setcb/claim); every history is an implementation trace",
     rule=("states = histories executed (no merging); transitions = verify/generate steps compared with a fresh object; non-trivial = "
           "every executed history (each contains at least one compared step or is a prefix-closed member)"),
@@ -191,7 +191,7 @@ PROPS["C16"] = dict(
                 "with the list capped at 9 items, depth 5 (quick) / 9 (thorough); every history is replayed on a fresh real keyring "
                 "and after every step count, get(i) for i <= n+1, find_bykid for seven kids, error_any, set error and per-item "
                 "kid/kty/error are compared with ref_list; ASan watches for use-after-free; live blocks of libjwt, jansson and "
-                "libcrypto are counted per history for leaks; get at indexes 2^31, 2^32, 3*2^32, 2^63 ... + i and free(2^32)"),
+                "libcrypto are counted per history for leaks; get at indexes 2^31, 2^32, 3*2^32, 2^63 ... + i and free(2^32); items refused after their key material was built (valid key, non-string alg)"),
     level_note="ref_list = model_list_step() in harness/jwk.c; states merged on the model list + set error flag, which determine every observer",
     rule=("states = distinct model lists; transitions = state x operation, each executed on the real keyring by replaying the state's "
           "shortest history; non-trivial = the operation changed the list or the error flag"),
@@ -250,7 +250,7 @@ PROPS["C17"] = dict(
                 "every k = 1..N the k-th request returns NULL.  This is exactly the property's quantifier (any single allocation), "
                 "so bound 1 is the whole space.  Calls are compared in order up to and including the first one that reports failure "
                 "through its documented channel; a differing result without a reported failure is a violation (wrong accept, token "
-                "differs, key differs), as is any crash or sanitizer report"),
+                "differs, key differs), as is any crash or sanitizer report; checker scenarios include bad-signature ES/RS/PS/EdDSA tokens"),
     level_note="allocations inside OpenSSL/GnuTLS do not pass through jwt_set_alloc and are not faulted; jansson's do (by design of jwt_set_alloc)",
     rule=("cases = (scenario, k); evaluations = faulty runs; every case is non-trivial when the fault was delivered (counter "
           "faults_delivered); finding key = innermost libjwt function > callee at the failing allocation | symptom"),
@@ -403,7 +403,7 @@ PROPS["C20"] = dict(
                 "integers up to +-2^63 incl. hex/octal forms, also as a future exp and a past nbf; 9 boolean spellings; 7 strings): "
                 "the payload must carry strtol()'s value and jwt-verify must accept; key2jwk -> jwk2key for every key of the pool in private and public form (leading-zero EC "
                 "keys included) and oct files of 32-512 bytes, comparing the JWK member by member with the harness's own JWK of "
-                "the same PEM (RFC 7518 fixed-width EC members) and the PEM written back with the original; key2jwk is run on every ordered pair (thorough: triple) of key-file kinds (RSA/EC/OKP private and public PEM, raw) and every position must yield what the file yields alone; lists with empty tokens (blank stdin lines, empty arguments) in every good/bad/empty composition of 2-4 tokens"),
+                "the same PEM (RFC 7518 fixed-width EC members) and the PEM written back with the original; key2jwk is run on every ordered pair (thorough: triple) of key-file kinds (RSA/EC/OKP private and public PEM, raw) and every position must yield what the file yields alone; lists with empty tokens (blank stdin lines, empty arguments) in every good/bad/empty composition of 2-4 tokens; oct keys ending in LF, CR, CRLF, space, TAB, NUL"),
     level_note="exit status 0 <=> every token verified is judged against tokens whose validity is known by construction and confirmed one by one",
     rule=("evaluations = tool invocations; cases = one composition family / one spelling combination / one key; non-trivial = cases "
           "whose round trip completed and was compared"),
